@@ -3,6 +3,7 @@ package main
 import (
 	"encoding/binary"
 	"math/rand"
+	"strings"
 
 	"github.com/hujm2023/go-sms-protocol/packet"
 )
@@ -54,7 +55,13 @@ func genPacket(g *genCtx) {
 			if j == failAt {
 				s := str(maxStr)
 				s = append(s, 1)
-				ops = append(ops, op{"op": "WFix", "v": B(s), "n": rr.Intn(len(s))})
+				n := rr.Intn(len(s))
+				if rr.Intn(3) == 0 {
+					// too long in octets but not in characters
+					s = []byte(strings.Repeat(pickS(rr, "é", "中", "😀"), 1+rr.Intn(6)))
+					n = len(s) - 1 - rr.Intn(len(s)/2)
+				}
+				ops = append(ops, op{"op": "WFix", "v": B(s), "n": n})
 				continue
 			}
 			switch rr.Intn(8) {
